@@ -5,6 +5,15 @@ here = os.path.dirname(os.path.dirname(os.path.abspath(__file__)))
 
 # id -> (technique, level text, level note, design ref)
 CHECKS = {
+    "C05": (
+        "Hypothesis-generated colliding feature sequences against a sequential reference model of the five strategies (create_db and create_db+update)",
+        "2-7 features over colliding keys with pooled columns/attributes/Parent values are imported under each strategy and force_merge_fields subset, "
+        "through the GFF3 and the GTF importer, all at once or split between create_db and update(); ids, columns, attributes (sets for merged "
+        "features, exact otherwise), the error outcome and the whole relation table must equal MergeModel's. One known finding (D11, replace keeps "
+        "the replaced line's links) is matched by signature and reported as KNOWN-FINDING.",
+        "MergeModel (gfv/refmodels.py) is a second implementation of the statement/database-ids.rst; a shared misreading would go unnoticed.",
+        "DESIGN.md section 4 C05, Appendix A.1",
+    ),
     "C02": (
         "Hypothesis-generated Parent DAGs rendered as permuted GFF3 files; reference-graph oracle over every (feature, level, featuretype, order_by) query",
         "DAGs up to 12 features and depth 4 with multi-parent, shared and dangling Parent values and exotic ids are written in a generated line order; "
